@@ -1020,6 +1020,16 @@ class Proto:
             self.events[('exit_act', self._evn(fn), '')].add((st.pre, st.act))
             self.events[('exit_reg', self._evn(fn), '')].add((ret, st.act & 4, st.act & 8))
 
+    def _is_completion_flag(self, fn, l):
+        """local l is `*guard` (possibly negated) of the ready flag a blocked sync caller shares with its queued job"""
+        from .facts import expr_root
+        e = fn.expr_of_local(l)
+        while e[0] == 'unop' and e[1] == 'Not':
+            return False       # (MIR folds the negation of a loop condition into the edges; an explicit Not is left undecided)
+        r = expr_root(e)
+        g = self.H(fn).guards
+        return r[0] == 'var' and g.get(r[1]) == 'sync.ready'
+
     def _switch(self, fn, bb, t, st):
         d = t['discr']
         v = self._operand_val(fn, st, d) if d['k'] != 'const' else self._operand_val(fn, st, d)
@@ -1034,6 +1044,24 @@ class Proto:
             if v is not None and v[0] == 'bool':
                 pass
             else:
+                if st.resched == 2 and dl is not None and self._is_completion_flag(fn, dl):
+                    # `*ready` seen true: the job this caller appended has run, so somebody has run the queue since - what is left on it is
+                    # that runner's to reschedule, not the caller's
+                    return [(tgt, st._replace(resched=0) if val != '0' else st) for val, tgt in edges]
+                if v is None and not no_refine and dl is not None and fn.local_ty(dl) == 'bool' and listed == ['0'] and dl not in _untracked():
+                    # a flag the analysis knows nothing about (`let steal_now = went_idle && thread::panicking()`): the branch taken fixes
+                    # it - and the named local the tested temporary was copied from, in the same block - for the rest of the path
+                    outs = []
+                    for val, tgt in edges:
+                        bv = ('bool', 0 if val == '0' else 1)
+                        x = vset(st, dl, bv)
+                        ds = [d_ for d_ in fn.defs().get(dl, []) if not fn.blocks[d_[1]]['cleanup']]
+                        if len(ds) == 1 and ds[0][0] == 'stmt' and ds[0][1] == bb and ds[0][3]['k'] == 'use' and ds[0][3]['op']['k'] in ('copy', 'move') and not ds[0][3]['op']['pl']['p']:
+                            src = ds[0][3]['op']['pl']['l']
+                            if vget(x, src) is None and fn.local_ty(src) == 'bool' and src not in _untracked():
+                                x = vset(x, src, bv)
+                        outs.append((tgt, x))
+                    return outs
                 return [(tgt, st) for _, tgt in edges]
         kind = v[0]
         if kind == 'bool':
@@ -1371,6 +1399,11 @@ class Proto:
                 st = x
             else:
                 return done(x, None)
+        if name.endswith(('Condvar::wait', 'Condvar::wait_while', 'Condvar::wait_timeout', 'Condvar::wait_timeout_while')) and st.resched == 2:
+            if record:
+                self.viol.append(('TOK-resched', fn.name, 'a job is appended while the queue may be Idle and the caller goes to sleep on its condition variable without the queue having been '
+                                  '(re)scheduled or claimed: nobody is obliged to run it, so nobody will ever signal the caller', fn.loc(bb)))
+            return done(st._replace(resched=0), None)
         if name.endswith('thread::Thread::unpark'):
             return done(st._replace(act=st.act | 2), None)
         if name.endswith('::schedule_thread'):
